@@ -45,6 +45,8 @@ type monitorOp struct {
 	name   string
 	sink   *violationSink
 	step   int64
+	start  int64
+	end    int64
 	batch  int
 	yield  uint64
 
@@ -120,6 +122,12 @@ func (m *monitorOp) Next(ctx context.Context) ([]model.StepVector, error) {
 		nser = len(m.series)
 	}
 	for _, v := range b {
+		// every operator of the plan emits steps of the query's own grid: the first at the start, none past the end
+		if v.T > m.end || v.T < m.start {
+			m.sink.report("%s: a step vector at t=%d lies outside the window [%d, %d]", m.name, v.T, m.start, m.end)
+		} else if !m.hasLast && v.T != m.start {
+			m.sink.report("%s: the first step vector is at t=%d, the window starts at %d", m.name, v.T, m.start)
+		}
 		if m.hasLast {
 			if v.T <= m.lastT {
 				m.sink.report("%s: step timestamps not strictly increasing (%d after %d)", m.name, v.T, m.lastT)
@@ -161,14 +169,14 @@ func childrenOf(op model.VectorOperator) []*model.VectorOperator {
 }
 
 // instrument wraps every edge below (and including) the slot.
-func instrument(slot *model.VectorOperator, sink *violationSink, step int64, yieldSeed uint64, path string) {
+func instrument(slot *model.VectorOperator, sink *violationSink, w Window, yieldSeed uint64, path string) {
 	inner := *slot
 	name, _ := inner.Explain()
 	for i, c := range childrenOf(inner) {
-		instrument(c, sink, step, yieldSeed*31+uint64(i)+1, fmt.Sprintf("%s/%d", path, i))
+		instrument(c, sink, w, yieldSeed*31+uint64(i)+1, fmt.Sprintf("%s/%d", path, i))
 	}
 	sink.edges++
-	*slot = &monitorOp{inner: inner, name: path + ":" + name, sink: sink, step: step, batch: 10, yield: yieldSeed}
+	*slot = &monitorOp{inner: inner, name: path + ":" + name, sink: sink, step: w.Step, start: w.Start, end: w.End, batch: 10, yield: yieldSeed}
 }
 
 // oracleStream (C18): monitors every operator edge of the plan while the query
@@ -193,7 +201,7 @@ func oracleStream(c *Case) CaseResult {
 	}
 	res.Path = "native"
 	sink := &violationSink{}
-	instrument(root, sink, c.Window.Step, uint64(c.Seed)*7919+uint64(c.ID)+1, "root")
+	instrument(root, sink, c.Window, uint64(c.Seed)*7919+uint64(c.ID)+1, "root")
 	out := canonResult(q.Exec(context.Background()))
 	q.Close()
 	res.NonTriv = out.NonTrivial()
